@@ -11,8 +11,8 @@ half) and "garbage in the day-of-year and millisecond fields" (`repair_day_ms_ga
 under three stated side conditions) and "an implausible year on some line" (`repair_year_out_of_range`, any
 number of corrupt lines), and for ANY garbage (plausible years included) on fewer than ONE THIRD of the lines
 (`repair_any_garbage_third`).  What stays partial: the band between one third and 40 % when plausible-but-wrong
-years (or ms values beyond 32 bits / passes longer than 6 h) are involved, and recorded-day series with a
-half-integer median - correspondence check and the property's own oracle only.
+years (or ms values beyond 32 bits / passes longer than 6 h / recorded-day series with a half-integer median)
+are involved - correspondence check and the property's own oracle only.
 -/
 import PygacModel.Lemmas.TimesRepair
 import PygacModel.Lemmas.TimesDay
@@ -200,8 +200,8 @@ example : getTimes {} 500 2026 false (some 1025956800000) garbledDays =
 
 /-- **End-to-end repair, ANY corruption class, fewer than one third of the lines**: the corrupt lines may carry
 arbitrary (plausible) years, arbitrary day numbers and arbitrary ms values - no restriction on the ms field's
-size, on the length of the pass or on the time of year (scenario `Times.GarbledAny`: line numbers, header time and
-the first line intact; whole-number median of the recorded days).  Every returned time is within 10 s (+ 2 ms)
+size, on the recorded days, on the length of the pass or on the time of year (scenario `Times.GarbledAny`: line
+numbers, header time and the first line intact - nothing else is assumed).  Every returned time is within 10 s (+ 2 ms)
 of the true time.  (Together with `repair_year_out_of_range` for implausible years this covers every kind of
 garbage in the time fields; the 40 % of the property is reached by `repair_day_ms_garbage` when the years are
 intact and by `repair_ms_garbage` when the days are, too.) -/
@@ -255,7 +255,7 @@ example : GarbledAny 500 false 2026 truePass7 garbledAll [true, true, true, fals
     intro i h1 h2 h3 hg
     have : i < 7 := h1
     interval_cases i <;> first | rfl | exact absurd hg (by decide +revert)
-  med_int := ⟨187, by decide +kernel⟩
+
 
 example : getTimes {} 500 2026 false (some 1025956800000) garbledAll =
     [1025956800000, 1025956800500, 1025956801000, 1025956801500, 1025956802000, 1025956802500, 1025956803000] := by
